@@ -122,16 +122,18 @@ def _reads_vars(fn, node):
 
 
 def _element_effects(fn, e):
-    """(derefs: [terms], kills: [roots/terms], assigned_locals: {decl ids}) of a single CFG element (not its children)"""
+    """(derefs: [terms], kills: [roots/terms], assigned_locals: {decl ids}, incs: [terms]) of a single CFG element"""
     nd = fn.n(e)
     c = nd['c']
-    derefs, kills, assigned = [], [], set()
+    derefs, kills, assigned, incs = [], [], set(), []
     T = lambda i: fn.term(i, inline=False)
     if c == 'UnaryOperator':
         if nd['op'] == '*':
             derefs.append(T(nd['ch'][0]))
         elif nd['op'] in ('++', '--'):
             kills.append(T(nd['ch'][0]))
+            if nd['op'] == '++':
+                incs.append(T(nd['ch'][0]))
     elif c == 'MemberExpr' and nd.get('arrow'):
         derefs.append(T(nd['ch'][0]))
     elif c == 'ArraySubscriptExpr':
@@ -146,6 +148,8 @@ def _element_effects(fn, e):
                 derefs.append(T(args[0]))
         if (op in ASSIGN_OPS or op in ('++', '--')) and args:
             kills.append(T(args[0]))
+            if op == '++':
+                incs.append(T(args[0]))
     if c in ('CallExpr', 'CXXMemberCallExpr', 'CXXOperatorCallExpr', 'CXXConstructExpr', 'CXXTemporaryObjectExpr'):
         pm = nd.get('pmodes', [])
         args = nd.get('args', [])
@@ -167,7 +171,7 @@ def _element_effects(fn, e):
     if c == 'DeclStmt':
         for v in nd.get('vars', []):
             kills.append(('local', v['name'], v['id']))
-    return derefs, kills, assigned
+    return derefs, kills, assigned, incs
 
 
 def _killed(x, k):
@@ -187,7 +191,23 @@ def _killed(x, k):
     return False
 
 
-def analyse(fn):
+_entry_memo = {}
+
+
+def entry_use(fn, x):
+    """does fn, entered with `x == end()` already established for its own field x, dereference or increment x before
+    re-testing or re-assigning it?  returns the offending node or None"""
+    key = (id(fn.unit), fn.id, x)
+    if key in _entry_memo:
+        return _entry_memo[key]
+    _entry_memo[key] = None
+    r = analyse(fn, initial={x}, interprocedural=False)
+    hit = r['violations'][0][0] if r['violations'] else None
+    _entry_memo[key] = hit
+    return hit
+
+
+def analyse(fn, initial=None, interprocedural=True):
     """returns dict(violations=[(deref node, X, cmp node)], undecided=[...], comparisons=n, derefs=n)"""
     res = {'violations': [], 'undecided': [], 'comparisons': 0, 'derefs_checked': 0, 'cmp_sites': []}
     if not fn.cfg:
@@ -202,10 +222,12 @@ def analyse(fn):
                 for (x, _) in implications(fn, c, True) + implications(fn, c, False):
                     res['cmp_sites'].append((c, x))
     res['comparisons'] = len(cmps)
-    if not cmps:
+    if not cmps and not initial:
         return res
     # facts: (X, cmp_node, frozenset(tainted locals), weak)
     IN = {b: set() for b in g.reach}
+    if initial:
+        IN[g.entry] = {(x, 0, frozenset(), False) for x in initial}
     work = [g.entry]
     effects = {}
     seen_viol = set()
@@ -220,9 +242,28 @@ def analyse(fn):
         for e in blk['elems']:
             if e not in effects:
                 effects[e] = _element_effects(fn, e)
-            derefs, kills, assigned = effects[e]
+            derefs, kills, assigned, incs = effects[e]
             if derefs:
                 res['derefs_checked'] += 1 if first_visit else 0
+            # a call of a member function of the same object while one of its fields is known to be end(): the callee must
+            # not dereference or advance that field before re-testing it
+            nde = fn.n(e)
+            if interprocedural and facts and nde['c'] == 'CXXMemberCallExpr' and nde.get('obj') and fn.term(nde['obj'], inline=False) == ('this',):
+                callee = fn.unit.functions.get(nde.get('cd'))
+                if callee is not None and callee.record == fn.record:
+                    for (x, cn, taint, weak) in list(facts):
+                        if x[0] == 'field' and x[2] == ('this',) and not weak:
+                            hit = entry_use(callee, x)
+                            if hit and (e, x) not in seen_viol:
+                                seen_viol.add((e, x))
+                                res['violations'].append((e, x, cn))
+                                res.setdefault('via', {})[(e, x)] = (callee, hit)
+            for d in incs:
+                for (x, cn, taint, weak) in facts:
+                    if d == x and not weak and (e, x) not in seen_viol:
+                        seen_viol.add((e, x))
+                        res['violations'].append((e, x, cn))
+                        res.setdefault('inc', set()).add((e, x))
             for d in derefs:
                 for (x, cn, taint, weak) in facts:
                     if d != x:
@@ -261,7 +302,15 @@ def analyse(fn):
     return res
 
 
-def describe(fn, viol):
+def describe(fn, viol, res=None):
     e, x, cn = viol
+    if cn == 0:
+        return f"`{fmt_term(x)}` is dereferenced or advanced at line {fn.n(e)['l']} before being re-tested"
+    if res and (e, x) in res.get('via', {}):
+        callee, hit = res['via'][(e, x)]
+        return (f"call of {callee.name}() at line {fn.n(e)['l']} is reachable on the branch of `{fmt_term(fn.term(cn, inline=False))}` (line {fn.n(cn)['l']}) on which "
+                f"`{fmt_term(x)}` equals end(), and {callee.name}() advances/dereferences it at line {callee.n(hit)['l']} before any re-test")
+    if res and (e, x) in res.get('inc', set()):
+        return (f"`{fmt_term(x)}` is incremented at line {fn.n(e)['l']} on the branch of `{fmt_term(fn.term(cn, inline=False))}` (line {fn.n(cn)['l']}) on which it equals end()")
     return (f"dereference of `{fmt_term(x)}` at line {fn.n(e)['l']} is reachable on the branch of "
             f"`{fmt_term(fn.term(cn, inline=False))}` (line {fn.n(cn)['l']}) on which `{fmt_term(x)}` equals end()")
